@@ -1,7 +1,7 @@
 (** Extraction of the executable model for the correspondence check.
     Only [ExtrOcamlBasic] is used (bool, option, list, prod, unit, sumbool map
     to OCaml's own); nat stays the Coq datatype.  No [Extract Constant]. *)
-From CB Require Import Driver NetDriver TraceEnv PipeNet.
+From CB Require Import Driver NetDriver TraceEnv PipeNetG.
 Require Extraction.
 Require ExtrOcamlBasic.
 Extraction Language OCaml.
